@@ -9,6 +9,7 @@ import (
 
 	"verif/internal/checks"
 	"verif/internal/core"
+	"verif/internal/gen"
 )
 
 func main() {
@@ -22,6 +23,14 @@ func main() {
 		os.Exit(2)
 	}
 	id, mode := os.Args[1], os.Args[2]
+	if id == "gen" && len(os.Args) >= 4 {
+		// debugging aid: vcheck gen <profile> <index> prints one generated program
+		var idx int
+		fmt.Sscan(os.Args[3], &idx)
+		p := gen.Generate(core.Derive(core.Seed(), "c01-"+mode, idx), idx, mode)
+		fmt.Print(p.Source())
+		return
+	}
 	c, ok := checks.Registry[id]
 	if !ok {
 		fmt.Fprintln(os.Stderr, "unknown check", id)
